@@ -8,7 +8,9 @@
 //! C17 additions (all optional): "description": [code points] on types, fields, arguments, input
 //! fields and enum values; "deprecated": {"reason": [code points] | absent} on fields, arguments, input
 //! fields and enum values; enum values as strings or {"name", "description", "deprecated"};
-//! "specifiedBy": [code points] on scalars.
+//! "specifiedBy": [code points] on scalars; "keys": ["id", ..] on objects and interfaces (federation entity
+//! keys); "federation": {"entities": [names]} on the type system = SchemaBuilder::enable_federation + an
+//! entity resolver.
 #![allow(dead_code)]
 use async_graphql::dynamic::*;
 use async_graphql::{Name, Value};
@@ -181,6 +183,9 @@ pub fn builder_of(ts: &J) -> SchemaBuilder {
     let info = Arc::new(info_of(ts));
     let opt = |k: &str| ts[k].as_str().filter(|s| !s.is_empty());
     let mut b = Schema::build(ts["query"].as_str().unwrap_or(""), opt("mutation"), opt("subscription"));
+    if ts.get("federation").map(|f| f.is_object()).unwrap_or(false) {
+        b = b.enable_federation().entity_resolver(|_| FieldFuture::Value(None));
+    }
     for (name, t) in obj(ts, "types") {
         let desc = t.get("description").and_then(cp_string);
         match t["kind"].as_str() {
@@ -232,6 +237,9 @@ pub fn builder_of(ts: &J) -> SchemaBuilder {
                 for i in names(t, "implements") {
                     o = o.implement(i);
                 }
+                for k in names(t, "keys") {
+                    o = o.key(k);
+                }
                 b = b.register(o);
             }
             Some("INTERFACE") => {
@@ -254,6 +262,9 @@ pub fn builder_of(ts: &J) -> SchemaBuilder {
                 }
                 for i in names(t, "implements") {
                     o = o.implement(i);
+                }
+                for k in names(t, "keys") {
+                    o = o.key(k);
                 }
                 b = b.register(o);
             }
